@@ -8,6 +8,7 @@ import (
 	"flag"
 	"fmt"
 	"os"
+	"runtime/debug"
 	"strings"
 
 	"verifsim/hist"
@@ -74,6 +75,12 @@ func loadKnown(path string) []hist.KnownFinding {
 }
 
 func main() {
+	// The garbage collector is the one scheduler-like agent the simulator does
+	// not drive; its only observable effect on library code is through
+	// sync.Pool-style caches. Keep it quiet (it still runs under memory
+	// pressure) so that runs and replays see the same cache behaviour.
+	debug.SetGCPercent(-1)
+	debug.SetMemoryLimit(1 << 30)
 	if len(os.Args) < 2 {
 		fatal2("usage: edsim hist|replay|selfcheck ...")
 	}
